@@ -161,6 +161,11 @@ func (vs *ValidatorStore) ExecuteAllegationTracker(ctx *ValidatorContext, active
 
 		for i := range ar.Votes {
 			vote := ar.Votes[i]
+			// activeCount, the base of the required number of votes, counts the validators that
+			// are active now: nobody else has a say
+			if !ctx.EvidenceStore.IsActiveValidator(vote.Address) {
+				continue
+			}
 			switch vote.Choice {
 			case evidence.YES:
 				yesCount++
